@@ -803,8 +803,8 @@ add("m19e", ["C19"], (Q, """        if not new_jobs:
             # nothing but None's or empty sequences
             return
 """), rules=["R19.2"])
-add("m19f", ["C19"], (J, """                for req in requirement:
-                    self.requires(req, remove=remove)""", """                for req in requirement:
+add("m19f", ["C19"], (J, """                for req in list(requirement):
+                    self.requires(req, remove=remove)""", """                for req in list(requirement):
                     self.requires(req)"""), rules=["R19.3"])
 add("m19g", ["C19"], (Q, """        if self.jobs:
             self.jobs[0].requires(required)""", """        if self.jobs:
@@ -1228,3 +1228,53 @@ add("m19w", ["C19", "C10"], [(Q, "        self._pending_required = []\n        i
     rules=["R19.10", "R10.10"], note="seed C19-R4C")
 add("m08z", ["C08", "C11", "C05"], (S, "                [job._task for job in self.jobs if job._task is not None])", "                (job._task for job in self.jobs if job._task is not None))"),
     rules=["R08.5", "R11.2", "R05.5"], note="seed C08-R4C: a generator expression is exhausted by the cancel loop")
+
+# ------------------------------------------------------------------ F15: no live iteration while removing (R19.11)
+_F15 = """                for req in list(requirement):
+                    self.requires(req, remove=remove)
+"""
+add("m19x", ["C19"], (J, _F15, """                for req in requirement:
+                    self.requires(req, remove=remove)
+"""), rules=["R19.11"], note="reverts fix F15")
+add("m19y", ["C19"], (J, _F15, """                for req in iter(requirement):
+                    self.requires(req, remove=remove)
+"""), rules=["R19.11"], note="a lazy wrapper is no snapshot")
+add("m19z", ["C19"], [(J, _F15, """                self._require_all(requirement, remove)
+"""), (J, "    def requires(self, *requirements, remove=False)", """    def _require_all(self, collection, remove):
+        for req in collection:
+            self.requires(req, remove=remove)
+
+    def requires(self, *requirements, remove=False)""")], rules=["R19.11"], note="the live loop moved to a helper")
+add("m19z2", ["C19"], [(J, _F15, """                for req in self._walk(requirement):
+                    self.requires(req, remove=remove)
+"""), (J, "    def requires(self, *requirements, remove=False)", """    @staticmethod
+    def _walk(collection):
+        for item in collection:
+            yield item
+
+    def requires(self, *requirements, remove=False)""")], rules=["R19.11"], note="a generator iterates its argument live, interleaved with the removals")
+add("b19x", ["C19"], (J, _F15, """                for req in tuple(requirement):
+                    self.requires(req, remove=remove)
+"""), expect='silent')
+add("b19y", ["C19"], (J, _F15, """                snapshot = requirement.copy() if isinstance(requirement, set) else requirement
+                if isinstance(snapshot, (set, frozenset)):
+                    for req in list(snapshot):
+                        self.requires(req, remove=remove)
+                    continue
+                if isinstance(requirement, (tuple, list)):
+                    for req in requirement:
+                        self.requires(req, remove=remove)
+"""), expect='silent', note="a list or a tuple cannot be the `required` set")
+add("b19z", ["C19"], [(J, _F15, """                self._require_all(list(requirement), remove)
+"""), (J, "    def requires(self, *requirements, remove=False)", """    def _require_all(self, collection, remove):
+        for req in collection:
+            self.requires(req, remove=remove)
+
+    def requires(self, *requirements, remove=False)""")], expect='nofalse', note="the snapshot is taken by the caller: the helper's own loop cannot tell (inconclusive at worst)")
+add("b19z2", ["C19"], (J, _F15, """                if remove:
+                    for req in list(requirement):
+                        self.requires(req, remove=True)
+                else:
+                    for req in requirement:
+                        self.requires(req, remove=False)
+"""), expect='silent', note="adding what is already there does not change the set")
